@@ -56,9 +56,9 @@ func runC02(p *Prog, r *Report) {
 			if l.Name != "Panic" {
 				continue
 			}
-			site := c.Encl.Name() + "/jen.Panic"
+			site := p.anchorFor(c.Encl, []string{"builder.caseAction"}) + "/jen.Panic"
 			okArm := false
-			if c.Encl.Name() == "builder.caseAction" {
+			if p.inRegion("builder.caseAction", c.Encl) {
 				for _, g := range guardsOf(c.Stack, c.Outer) {
 					if g.Cond != nil && g.Tag != nil && strings.HasSuffix(exprString(g.Cond), "EnumActionPanic") {
 						okArm = true
